@@ -112,6 +112,54 @@ static sexp_heap vh_heap_of(sexp ctx, void *p) {
 
 #define VH_FAIL(...) do { if (!vh_heapcheck_fail++) snprintf(vh_heapcheck_msg, sizeof(vh_heapcheck_msg), __VA_ARGS__); return 0; } while (0)
 
+/* The collector and the checker both read the number of traced slots of a type from the type table.  This audit derives the
+ * number from the struct layout instead (first and last `sexp` member of the variant, read off include/chibi/sexp.h), so a type
+ * descriptor that declares too few or too many traced slots is seen even though checker and collector agree with each other. */
+#define VH_SPAN(variant, first, last) ((long)((sexp_offsetof(variant, last) - sexp_offsetof(variant, first)) / sizeof(sexp)) + 1), (long)sexp_offsetof(variant, first)
+static const char *vh_audit_type_table(sexp ctx, char *buf, size_t buflen) {
+  static const struct { int tag; const char *name; long slots; long base; } want[] = {
+    {SEXP_PAIR, "pair", VH_SPAN(pair, car, source)},
+    {SEXP_RATIO, "ratio", VH_SPAN(ratio, numerator, denominator)},
+    {SEXP_COMPLEX, "complex", VH_SPAN(complex, real, imag)},
+    {SEXP_IPORT, "input-port", VH_SPAN(port, name, fd)},
+    {SEXP_OPORT, "output-port", VH_SPAN(port, name, fd)},
+    {SEXP_EXCEPTION, "exception", VH_SPAN(exception, kind, stack_trace)},
+    {SEXP_PROCEDURE, "procedure", VH_SPAN(procedure, bc, vars)},
+    {SEXP_MACRO, "macro", VH_SPAN(macro, proc, aux)},
+    {SEXP_SYNCLO, "synclo", VH_SPAN(synclo, env, rename)},
+#if SEXP_USE_STABLE_ABI || SEXP_USE_RENAME_BINDINGS
+    {SEXP_ENV, "env", VH_SPAN(env, parent, renames)},
+#else
+    {SEXP_ENV, "env", VH_SPAN(env, parent, bindings)},
+#endif
+    {SEXP_BYTECODE, "bytecode", VH_SPAN(bytecode, name, source)},
+    {SEXP_LAMBDA, "lambda", VH_SPAN(lambda, name, source)},
+    {SEXP_CND, "cnd", VH_SPAN(cnd, test, source)},
+    {SEXP_REF, "ref", VH_SPAN(ref, name, source)},
+    {SEXP_SET, "set", VH_SPAN(set, var, source)},
+    {SEXP_SET_SYN, "set-syn", VH_SPAN(set_syn, var, source)},
+    {SEXP_SEQ, "seq", VH_SPAN(seq, ls, source)},
+    {SEXP_LIT, "lit", VH_SPAN(lit, value, source)},
+#if SEXP_USE_STABLE_ABI || SEXP_USE_DL
+    {SEXP_CONTEXT, "context", VH_SPAN(context, stack, dl)},
+#else
+    {SEXP_CONTEXT, "context", VH_SPAN(context, stack, result)},
+#endif
+    {SEXP_PROMISE, "promise", VH_SPAN(promise, value, value)},
+  };
+  size_t k;
+  for (k = 0; k < sizeof(want) / sizeof(want[0]); k++) {
+    sexp t = sexp_type_by_index(ctx, want[k].tag);
+    if (!t || !sexp_typep(t)) continue;
+    if ((long)sexp_type_field_len_base(t) != want[k].slots || (long)sexp_type_field_base(t) != want[k].base) {
+      snprintf(buf, buflen, "type descriptor of %s declares %ld traced slots from offset %ld, the struct has %ld from offset %ld",
+               want[k].name, (long)sexp_type_field_len_base(t), (long)sexp_type_field_base(t), want[k].slots, want[k].base);
+      return buf;
+    }
+  }
+  return NULL;
+}
+
 /* returns 1 if the heap is well formed; fills optional statistics */
 struct vh_heap_stats { size_t total, free_bytes, live_bytes, live_objects, free_chunks, segments; };
 
@@ -124,6 +172,12 @@ static int vh_check_heap(sexp ctx, int after_sweep, struct vh_heap_stats *st) {
   sexp_sint_t len;
   int prev_free;
   unsigned char **starts;
+  static int audited = 0;
+  if (!audited) {
+    char abuf[300];
+    audited = 1;
+    if (vh_audit_type_table(ctx, abuf, sizeof(abuf))) VH_FAIL("%s", abuf);
+  }
   struct vh_heap_stats s;
   memset(&s, 0, sizeof(s));
   for (h = sexp_context_heap(ctx); h; h = h->next) nsegs++;
